@@ -8,12 +8,15 @@ mod tuples;
 fn main() {
     println!("cargo:rerun-if-env-changed=SHAPES_SEED");
     println!("cargo:rerun-if-env-changed=SHAPES_N");
+    println!("cargo:rerun-if-env-changed=SHAPES_FAMILY");
     println!("cargo:rerun-if-changed=gen/shapes.rs");
     println!("cargo:rerun-if-changed=gen/tuples.rs");
     println!("cargo:rerun-if-changed=build.rs");
     let seed: u64 = std::env::var("SHAPES_SEED").ok().and_then(|s| s.parse().ok()).unwrap_or(1);
     let n: usize = std::env::var("SHAPES_N").ok().and_then(|s| s.parse().ok()).unwrap_or(60);
-    let (src, _stats) = shapes::generate(seed, n);
+    // the systematic recursive (`Self`-typed link) family is appended unless SHAPES_FAMILY=0
+    let family = std::env::var("SHAPES_FAMILY").map(|s| s != "0").unwrap_or(true);
+    let (src, _stats) = shapes::generate(seed, n, family);
     let out = std::path::Path::new(&std::env::var("OUT_DIR").unwrap()).join("shapes.rs");
     std::fs::write(out, src).unwrap();
     let out = std::path::Path::new(&std::env::var("OUT_DIR").unwrap()).join("tuples.rs");
